@@ -193,7 +193,19 @@ def run_case(case):
     brgs = np.concatenate([[0.0], np.sort(rng.uniform(1.0, 359.0, 7))])
     PX = dists[:, None] * np.sin(np.radians(brgs))[None, :]
     PY = dists[:, None] * np.cos(np.radians(brgs))[None, :]
-    for XA, YA, nm_ in ((PX, PY, "polar table"), (PX[3:4, :], PY[3:4, :], "one row"), (PX[:, 2:3], PY[:, 2:3], "one column")):
+    # a closed outline (a polygon whose first vertex is repeated at the end, a ring of bearings at one distance) handed over as a
+    # column or as a row of a 2-D array, and a point cloud in which a site occurs twice
+    ring_b = np.radians(np.concatenate([np.sort(rng.uniform(0.0, 360.0, 9)), [0.0]]))
+    ring_b[-1] = ring_b[0]
+    ring_r = rng.uniform(200.0, 3000.0, 10)
+    ring_r[-1] = ring_r[0]
+    RX, RY = ring_r * np.sin(ring_b), ring_r * np.cos(ring_b)
+    CX, CY = rng.uniform(-4000, 4000, (4, 5)), rng.uniform(-4000, 4000, (4, 5))
+    CX[3, :], CY[3, :] = CX[0, :], CY[0, :]
+    CX[:, 4], CY[:, 4] = CX[:, 0], CY[:, 0]
+    for XA, YA, nm_ in ((PX, PY, "polar table"), (PX[3:4, :], PY[3:4, :], "one row"), (PX[:, 2:3], PY[:, 2:3], "one column"),
+                        (RX[:, None], RY[:, None], "closed outline as a column"), (RX[None, :], RY[None, :], "closed outline as a row"),
+                        (CX, CY, "point cloud with repeated first row and column")):
         LAa, LOa = xy_to_latlon(XA, YA, lat0, lon0)
         counters["array_calls"] += 1
         LAa, LOa = np.asarray(LAa), np.asarray(LOa)
@@ -214,9 +226,17 @@ def run_case(case):
     for k, (x, y) in enumerate([(12.0, 25.0), (0.3, -0.8), (-40.0, 3.0)]):  # towers a few metres from the reference point
         la, lo = xy_to_latlon(x, y, pts[0][0], pts[0][1])
         tw.append({"name": f"N{k}", "lat": float(la), "lon": float(lo), "z_m": 2.0, "_xy": (x, y)})
+    # (the other sections of the configuration - solver, parallel, output - are present in half of the cases, with every switch drawn:
+    # where a tower lies does not depend on how the run is carried out)
+    other = {}
+    if rng.random() < 0.5:
+        other = {"solver": {"closure": str(rng.choice(["MOST", "MOSTM", "CONSTANT"])), "footprint": bool(rng.random() < 0.5), "precision": str(rng.choice(["single", "double"]))},
+                 "parallel": {"use_cache": bool(rng.random() < 0.5), "max_workers": int(rng.integers(1, 5))},
+                 "output": {"format": "netcdf", "directory": "./out"}}
+        buckets["config_with_run_options"] = 1
     cfg = parse_config_dict({
         "domain": {"nx": 8, "ny": 8, "xmax": 80.0, "ymax": 80.0, "nz": 4, "ref_lat": pts[0][0], "ref_lon": pts[0][1]},
-        "towers": [{k_: v_ for k_, v_ in t_.items() if not k_.startswith("_")} for t_ in tw], "met": {"ustar": 0.3},
+        "towers": [{k_: v_ for k_, v_ in t_.items() if not k_.startswith("_")} for t_ in tw], "met": {"ustar": 0.3}, **other,
     })
     for t, spec in zip(cfg.towers, tw):
         counters["config_towers"] += 1
